@@ -1,4 +1,5 @@
 import WireV.Emit
+import WireV.Generated.Tables
 import WireP.Lemmas.EmitProofs
 /-! # C03 — a failing provider aborts the injector, returns its error, unwinds cleanups
 
@@ -121,5 +122,42 @@ example : runInj (fun p => p == 2) true true
      { kind := .func, out := 12, srcId := 3, hasCleanup := true, hasErr := true },
      { kind := .func, out := 13, srcId := 4 }]
     = ([Ev.call 0, Ev.call 1, Ev.call 2, Ev.cleanup 1, Ev.cleanup 0], Outcome.failed 2 true) := by decide
+
+/-! ## the zero value next to the error (`zeroValue`, regenerated tables)
+
+The injector returns "the zero value of its result type": which literal that is depends on the kind of the underlying type.
+The tables are read off `zeroValue` on every run; the expectation is Go's (spec: "The zero value"). -/
+section zero
+open WireV.Generated
+
+/-- Go's zero value of a basic kind, as a literal, by the kind's name and go/types flags -/
+def goZeroLit (kf : String × List String) : String :=
+  if kf.2.contains "IsBoolean" then "false"
+  else if kf.2.contains "IsString" then "\"\""
+  else if kf.1 == "UnsafePointer" then "nil"
+  else "0"
+
+/-- what `zeroValue` emits for a basic kind: the literal of the first branch whose condition mentions one of its flags / its kind -/
+def emittedZero (kf : String × List String) : Option String :=
+  (zeroBasicReturns.find? (fun c => c.1.any (fun n => kf.2.contains n || n == kf.1))).map (·.2)
+
+/-- **every typed basic kind gets its own zero literal** (`false`, `0`, `""`, `nil` for `unsafe.Pointer`) -/
+theorem zero_basic_right : (basicKinds.filter (fun kf => emittedZero kf != some (goZeroLit kf))) = [] := by decide
+
+/-- composite kinds: `T{}` for arrays and structs, `nil` for everything that can be nil -/
+theorem zero_cases_right :
+    (zeroCases.filter (fun c => c.1 != "Basic" &&
+      c.2 != (if c.1 == "Array" || c.1 == "Struct" then "lit" else "nil"))) = [] ∧
+    (["Array", "Struct", "Chan", "Interface", "Map", "Pointer", "Signature", "Slice"].filter
+      (fun k => !(zeroCases.map (·.1)).contains k)) = [] := by decide
+
+example : emittedZero ("Bool", ["IsBoolean"]) = some "false" ∧ emittedZero ("Float64", ["IsFloat"]) = some "0" ∧
+    emittedZero ("String", ["IsString"]) = some "\"\"" ∧ emittedZero ("UnsafePointer", []) = some "nil" := by decide
+example : basicKinds.length = 18 := by decide
+/-- the check notices a swapped literal -/
+example : ((([(["IsBoolean"], "0")] : List (List String × String)).find? (fun c => c.1.any (fun n => ["IsBoolean"].contains n))).map (·.2))
+    ≠ some (goZeroLit ("Bool", ["IsBoolean"])) := by decide
+
+end zero
 
 end WireP.C03
